@@ -2,7 +2,7 @@
 """Regenerates MANIFEST.json from the property modules under vf/props (run from /verif)."""
 import importlib, json, os, sys
 ROOT = os.path.dirname(os.path.dirname(os.path.abspath(__file__)))
-sys.path.insert(0, ROOT)
+sys.path.insert(0, ROOT); sys.path.insert(1, os.path.join(ROOT, ".deps"))
 props = [json.loads(l)["id"] for l in open(os.path.join(ROOT, "properties.jsonl"))]
 checks, na = [], []
 for pid in props:
